@@ -254,6 +254,50 @@ func TestCrashModel(t *testing.T) {
 	}
 }
 
+func TestZeroTails(t *testing.T) {
+	f := New()
+	Use(f)
+	defer Use(nil)
+	MkdirAll("/d", 0700)
+	a, _ := OpenFile("/d/a", O_CREATE|O_WRONLY|O_APPEND, 0600)
+	rec := func(payload string) []byte { // 2-byte header: 'H', len
+		return append([]byte{'H', byte(len(payload))}, payload...)
+	}
+	a.Write(rec("ab"))
+	a.Sync()
+	a.Write(rec("wxyz"))
+	a.Write(rec(""))
+	a.Write(rec("q"))
+	opt := &TearOptions{ZeroTails: FramedZeroTails(2, func(h []byte) int { return int(h[1]) })}
+	got := map[string]bool{}
+	f.CrashState().Images(opt, func(img *Image, tears []Tear) bool {
+		b := img.Files["/d/a"]
+		for i := range b {
+			if b[i] == 0 {
+				b[i] = '0'
+			}
+		}
+		if tears[0].Zeroed > 0 {
+			got[string(b)] = true
+		}
+		if string(b[:4]) != "H\x02ab" {
+			t.Fatalf("durable part changed: %q", b)
+		}
+		return true
+	})
+	// zeros only inside payloads behind an intact header, z in {1, half, all}
+	want := []string{"H\x02abH\x040", "H\x02abH\x04w0", "H\x02abH\x0400", "H\x02abH\x04wx0", "H\x02abH\x04000", "H\x02abH\x04wxy0", "H\x02abH\x04wx00", "H\x02abH\x040000",
+		"H\x02abH\x04wxyzH0H\x010"}
+	for _, w := range want {
+		if !got[strings.ReplaceAll(w, "H0H", "H\x00H")] {
+			t.Errorf("missing zero-tail image %q", w)
+		}
+	}
+	if len(got) != len(want) {
+		t.Errorf("zero-tail images: got %d %q, want %d", len(got), got, len(want))
+	}
+}
+
 func TestFailAfter(t *testing.T) {
 	for _, mode := range []FailMode{FailPanic, FailError} {
 		f := New()
